@@ -311,7 +311,9 @@ def evaluate(pre_entries, inv, umask=0o022, ignore=None, clone_ok=False):
                         mapped[bpath] = None
                         prev_mode = 0o666 & ~umask
                 spec["mode"] = prev_mode if fl.get("no_perms") else src_e["mode"]
-                spec["mode_alt"] = None
+                # --no-perms with --ownership: chown(2) itself strips set-ID bits of the mode the destination happens
+                # to have; the property's "without losing any permission bit" is about transferred permissions
+                spec["mode_alt"] = (prev_mode & ~0o6000) if (fl.get("no_perms") and fl.get("ownership")) else None
                 spec["mtime"] = None if fl.get("no_timestamps") else src_e["mtime"]
                 spec["not_mtime"] = src_e["mtime"] if fl.get("no_timestamps") else None
                 spec["xattrs"] = None if fl.get("no_perms") else src_e.get("xattrs", {})
